@@ -51,7 +51,9 @@ theorem stateZ_dropLast (h : List ℚ) (a : ℚ) (ha0 : 0 ≤ a) (hau : a ≤ u)
 
 /-- inside the zone so far ⇒ the product is non-negative -/
 theorem Tq_nonneg
-    (hfacnn : ∀ m a q, 0 < m → m < u → 0 ≤ a → a ≤ u → 0 ≤ facQ m a q) :
+    (hfacnn : ∀ (h : List ℚ) (a : ℚ), (∀ b ∈ h, 0 ≤ b ∧ b ≤ u) → h.length + 1 ≤ n →
+      0 < muAfter (some n) t h → muAfter (some n) t h < u → 0 ≤ a → a ≤ u →
+      0 ≤ facQ (muAfter (some n) t h) a (g h)) :
     ∀ h : List ℚ, (∀ a ∈ h, 0 ≤ a ∧ a ≤ u) → h.length ≤ n →
       (h = [] ∨ StateZ u n t h.dropLast) → 0 ≤ Tq facQ (some n) t g h := by
   intro h
@@ -73,10 +75,12 @@ theorem Tq_nonneg
         right
         rw [List.dropLast_concat]
         exact stateZ_dropLast u n t l' b (hl b (by simp)).1 (hl b (by simp)).2 hz
-    · exact hfacnn _ _ _ hm0 hmu hla.1 hla.2
+    · exact hfacnn l a hl hlen hm0 hmu hla.1 hla.2
 
 theorem valI_nonneg
-    (hfacnn : ∀ m a q, 0 < m → m < u → 0 ≤ a → a ≤ u → 0 ≤ facQ m a q)
+    (hfacnn : ∀ (h : List ℚ) (a : ℚ), (∀ b ∈ h, 0 ≤ b ∧ b ≤ u) → h.length + 1 ≤ n →
+      0 < muAfter (some n) t h → muAfter (some n) t h < u → 0 ≤ a → a ≤ u →
+      0 ≤ facQ (muAfter (some n) t h) a (g h))
     (h : List ℚ) (hr : ∀ a ∈ h, 0 ≤ a ∧ a ≤ u) (hlen : h.length ≤ n) :
     0 ≤ valI facQ u n t g h := by
   unfold valI
@@ -105,9 +109,13 @@ factor is non-negative inside the zone and its average over the next draw is at 
 remaining items have mean at most the null mean, then the probability that the event `ev` ever
 happens is at most `1/c`, provided `ev h` implies `c ≤ valI h`. -/
 theorem process_ville
-    (hfacnn : ∀ m a q, 0 < m → m < u → 0 ≤ a → a ≤ u → 0 ≤ facQ m a q)
-    (hfacsuper : ∀ m q (R : List ℚ), 0 < m → m < u → R ≠ [] → (∀ a ∈ R, 0 ≤ a ∧ a ≤ u) →
-      R.sum ≤ m * R.length → avgIdx R.length (fun i => facQ m (R.getD i 0) q) ≤ 1)
+    (hfacnn : ∀ (h : List ℚ) (a : ℚ), (∀ b ∈ h, 0 ≤ b ∧ b ≤ u) → h.length + 1 ≤ n →
+      0 < muAfter (some n) t h → muAfter (some n) t h < u → 0 ≤ a → a ≤ u →
+      0 ≤ facQ (muAfter (some n) t h) a (g h))
+    (hfacsuper : ∀ (h R : List ℚ), (∀ b ∈ h, 0 ≤ b ∧ b ≤ u) → h.length + 1 ≤ n →
+      0 < muAfter (some n) t h → muAfter (some n) t h < u → R ≠ [] → (∀ a ∈ R, 0 ≤ a ∧ a ≤ u) →
+      R.sum ≤ muAfter (some n) t h * R.length →
+      avgIdx R.length (fun i => facQ (muAfter (some n) t h) (R.getD i 0) (g h)) ≤ 1)
     (ev : List ℚ → Bool) (c : ℚ) (hc : 0 < c)
     (hev : ∀ R h, Inv u n t R h → ev h = true → c ≤ valI facQ u n t g h)
     (pop : List ℚ) (hpop : Inv u n t pop []) :
@@ -151,7 +159,7 @@ theorem process_ville
         have hne : (n : ℚ) - ((h.length + 1 : Nat) : ℚ) + 1 ≠ 0 := by
           rw [← hRl]; exact_mod_cast (by omega : R.length ≠ 0)
         field_simp
-      have := hfacsuper (muAfter (some n) t h) (g h) R hm0 hmu hR h2 (by rw [hm]; exact h4)
+      have := hfacsuper h R h3 hlen hm0 hmu hR h2 (by rw [hm]; exact h4)
       calc Tq facQ (some n) t g h * avgIdx R.length (fun i => facQ (muAfter (some n) t h) (R.getD i 0) (g h))
           ≤ Tq facQ (some n) t g h * 1 := mul_le_mul_of_nonneg_left this hT
         _ = Tq facQ (some n) t g h := mul_one _
